@@ -552,7 +552,7 @@ fn main() {
     }
 }
 fn families(thorough: bool) -> Vec<Fam> {
-    let m = if thorough { 5 } else { 1 };
+    let m = if thorough { 12 } else { 1 };
     vec![Fam { name: "check_good", n: 120 * m }, Fam { name: "check_bad", n: 60 * m }, Fam { name: "unique", n: 160 * m },
          Fam { name: "fk", n: 160 * m }, Fam { name: "fk_cascade", n: 60 * m }, Fam { name: "fk_scan", n: 40 * m }, Fam { name: "aimed", n: 30 * m }]
 }
